@@ -450,13 +450,13 @@ func c16Table(p *Prog, r *Report) {
 		return
 	}
 	type st struct {
-		pc            int
-		modrm         bool
+		pc             int
+		modrm          bool
 		ib, iw, id, io bool
-		ck            int // 0 none, 1 cb, 2 cw, 4 cd, 6 cp, 9 cm
-		narg          int
-		setop         bool
-		consumed      bool // at least one opcode byte was consumed (pos >= 1)
+		ck             int // 0 none, 1 cb, 2 cw, 4 cd, 6 cp, 9 cm
+		narg           int
+		setop          bool
+		consumed       bool // at least one opcode byte was consumed (pos >= 1)
 	}
 	type issue struct{ rule, msg string }
 	issues := map[string]string{}
@@ -930,30 +930,30 @@ func errTestedBetween(a, b ssa.Instruction, errV ssa.Value) bool {
 
 // reviewed constructs: function → reason; any unproven check in a function not listed (or new kind) fails.
 var c16BCEAllowed = map[string]string{
-	"internal/arch/x86asm.decode1 | src":          "C16.R1 proves every read of src in range (DBM over the dominating length guards)",
-	"internal/arch/x86asm.decode1 | decoder":      "C16.R2 proves every operand and branch target of the bytecode inside the table",
-	"internal/arch/x86asm.decode1 | decoderCover": "the coverage slice is never allocated (no store to it anywhere, confirmed by the C11 inventory): the indexing statement is under `!= nil`",
-	"internal/arch/x86asm.decode1 | inst.Args":    "array of 4; the index is the argument counter, which C16.R2 bounds by 4 (stored before the increment)",
-	"internal/arch/x86asm.decode1 | inst.Prefix":  "array of 14; indices are prefix positions accepted only below len(inst.Prefix) (`pos >= len(inst.Prefix)` returns), recorded positions tested `>= 0`, or vexIndex+1/+2 with vexIndex = 0",
-	"internal/arch/x86asm.decode1 | isCondJmp":    "array [maxOp+1]; the index is inst.Op, set only by xSetOp operands, which C16.R2 bounds by maxOp",
-	"internal/arch/x86asm.Inst.String | ?":        "bytes.Buffer internals inlined into String (not an index of goom data)",
-	"internal/bytecode.DecodeAddress | ?":         "inlined little-endian readers on a slice whose length is the same PCRel field that selects the width (C16.R4 slice rule)",
-	"internal/bytecode.DecodeAddress | bytes":     "bytes has length PCRel ≥ 1 (C16.R4 slice rule; PCRel ∈ {1,2,4} by C16.R5)",
+	"internal/arch/x86asm.decode1 | src":           "C16.R1 proves every read of src in range (DBM over the dominating length guards)",
+	"internal/arch/x86asm.decode1 | decoder":       "C16.R2 proves every operand and branch target of the bytecode inside the table",
+	"internal/arch/x86asm.decode1 | decoderCover":  "the coverage slice is never allocated (no store to it anywhere, confirmed by the C11 inventory): the indexing statement is under `!= nil`",
+	"internal/arch/x86asm.decode1 | inst.Args":     "array of 4; the index is the argument counter, which C16.R2 bounds by 4 (stored before the increment)",
+	"internal/arch/x86asm.decode1 | inst.Prefix":   "array of 14; indices are prefix positions accepted only below len(inst.Prefix) (`pos >= len(inst.Prefix)` returns), recorded positions tested `>= 0`, or vexIndex+1/+2 with vexIndex = 0",
+	"internal/arch/x86asm.decode1 | isCondJmp":     "array [maxOp+1]; the index is inst.Op, set only by xSetOp operands, which C16.R2 bounds by maxOp",
+	"internal/arch/x86asm.Inst.String | ?":         "bytes.Buffer internals inlined into String (not an index of goom data)",
+	"internal/bytecode.DecodeAddress | ?":          "inlined little-endian readers on a slice whose length is the same PCRel field that selects the width (C16.R4 slice rule)",
+	"internal/bytecode.DecodeAddress | bytes":      "bytes has length PCRel ≥ 1 (C16.R4 slice rule; PCRel ∈ {1,2,4} by C16.R5)",
 	"internal/bytecode.DecodeRelativeAddr | block": "block[offset:offset+PCRel] with offset = pos+PCRelOff inside the decoded instruction (C16.R2 'rel' + C16.R5)",
-	"internal/bytecode.EncodeAddress | ?":         "inlined little-endian writers on addr, which is either the PCRel-wide field or a fresh 4-byte slice",
-	"internal/bytecode.EncodeAddress | addr":      "addr is block[offset:offset+PCRel], PCRel ≥ 1",
-	"internal/bytecode.EncodeAddress | ops":       "ops is block[pos:offset] with offset = pos+PCRelOff, PCRelOff ≥ 1 for PC-relative instructions",
-	"internal/bytecode.GetFuncSize | code":        "code is a private 16-byte copy (RawRead(…, defaultInsLen)); indices 0 and :len(funcPrologue)=10",
-	"internal/bytecode.GetInnerFunc | code":       "as GetFuncSize",
-	"internal/bytecode.ParseIns | copyOrigin":     "copyOrigin[pos:endPos] under pos < len and endPos clamped to len",
-	"internal/bytecode.PrintInstf | code":         "log-only path; code[:ins.Len] with Len ≤ len(code) by C16.R1",
-	"internal/bytecode.PrintInstf | copyOrigin":   "log-only path; same PC-relative slice as DecodeRelativeAddr",
-	"internal/bytecode.littleEndian.Int16 | b":    "bounds hint `_ = b[1]`; callers pass PCRel-wide slices (C16.R4)",
-	"internal/bytecode.littleEndian.Int32 | b":    "bounds hint; as Int16",
-	"internal/bytecode.littleEndian.Int64 | b":    "bounds hint; as Int16",
-	"internal/bytecode.littleEndian.PutInt16 | b": "bounds hint; as Int16",
-	"internal/bytecode.littleEndian.PutInt32 | b": "bounds hint; as Int16",
-	"internal/bytecode.littleEndian.PutInt64 | b": "bounds hint; as Int16",
+	"internal/bytecode.EncodeAddress | ?":          "inlined little-endian writers on addr, which is either the PCRel-wide field or a fresh 4-byte slice",
+	"internal/bytecode.EncodeAddress | addr":       "addr is block[offset:offset+PCRel], PCRel ≥ 1",
+	"internal/bytecode.EncodeAddress | ops":        "ops is block[pos:offset] with offset = pos+PCRelOff, PCRelOff ≥ 1 for PC-relative instructions",
+	"internal/bytecode.GetFuncSize | code":         "code is a private 16-byte copy (RawRead(…, defaultInsLen)); indices 0 and :len(funcPrologue)=10",
+	"internal/bytecode.GetInnerFunc | code":        "as GetFuncSize",
+	"internal/bytecode.ParseIns | copyOrigin":      "copyOrigin[pos:endPos] under pos < len and endPos clamped to len",
+	"internal/bytecode.PrintInstf | code":          "log-only path; code[:ins.Len] with Len ≤ len(code) by C16.R1",
+	"internal/bytecode.PrintInstf | copyOrigin":    "log-only path; same PC-relative slice as DecodeRelativeAddr",
+	"internal/bytecode.littleEndian.Int16 | b":     "bounds hint `_ = b[1]`; callers pass PCRel-wide slices (C16.R4)",
+	"internal/bytecode.littleEndian.Int32 | b":     "bounds hint; as Int16",
+	"internal/bytecode.littleEndian.Int64 | b":     "bounds hint; as Int16",
+	"internal/bytecode.littleEndian.PutInt16 | b":  "bounds hint; as Int16",
+	"internal/bytecode.littleEndian.PutInt32 | b":  "bounds hint; as Int16",
+	"internal/bytecode.littleEndian.PutInt64 | b":  "bounds hint; as Int16",
 }
 
 var bceRe = regexp.MustCompile(`^(.*\.go):(\d+):(\d+): Found (IsInBounds|IsSliceInBounds)`)
